@@ -15,8 +15,8 @@ package main
 
 import (
 	"fmt"
-	"os"
 	"math/rand"
+	"os"
 	"regexp"
 	"runtime/debug"
 	"strconv"
